@@ -86,10 +86,20 @@ impl<T: DictionaryAccess> MorphemeList<T> {
         }
     }
 
+    /// The lists produced by split_into / copy_slice / empty_clone share the input text with their
+    /// source. Before this list gets a text of its own it must let go of the shared one,
+    /// otherwise the other lists would see the new text under their old nodes.
+    fn detach_input(&mut self) {
+        if Rc::strong_count(&self.input) > 1 {
+            self.input = Rc::new(RefCell::new(InputPart::default()));
+        }
+    }
+
     pub fn collect_results<U: DictionaryAccess>(
         &mut self,
         analyzer: &mut StatefulTokenizer<U>,
     ) -> SudachiResult<()> {
+        self.detach_input();
         match self.input.try_borrow_mut() {
             Ok(mut i) => {
                 let mref = i.deref_mut();
@@ -198,6 +208,7 @@ impl<T: DictionaryAccess> MorphemeList<T> {
     }
 
     pub fn lookup(&mut self, query: &str, subset: InfoSubset) -> SudachiResult<usize> {
+        self.detach_input();
         let end_chars = {
             let part = &mut *self.input.borrow_mut();
             // on-demand splits of the found entries load their fields with this request
